@@ -51,6 +51,10 @@ CHECKS = {
    text="Bounded exhaustive exploration driven by the symx engine: the C04 graph shapes (classes incl. subclasses and a class derived through an unmapped intermediate class, parent links with cycles, shared and value-equal-but-distinct targets, collections, alternatively mapped objects, the DAO class used for loading) are bounded symbolic choices enumerated completely; every path persists to_dao(root) into sqlite through krrood's engine, loads in a NEW session, calls from_dao and compares graph isomorphism (classes, sharing, None positions, collections as sets of elements, values) and row count per table == number of distinct objects. SQLAlchemy's unit of work and sqlite are executed, not encoded - all symbolic variables are finite choices, which is why the level is exploration, not model checking.",
    note="2 nodes (quick) / 3 nodes (thorough); scalar values from small pools (incl. 0, '', False, []); sqlite only; the database is emptied (not re-created) between paths. Trusted: the isomorphism oracle, SQLAlchemy, sqlite.",
    technique="symx-driven exhaustive enumeration of a bounded shape space (solver prunes/forces choices); concrete execution of SQLAlchemy + sqlite per path"),
+ "C06": dict(category="model_checking", design="DESIGN.md 4 C06",
+   text="(b) A model specification is a vector of bounded symbolic choices (classes, bases, field kinds from the supported grammar, reference targets incl. self / mutual references and several collections of one target, the order the classes are given in); the solver-driven exploration enumerates every specification within the bound and runs the real generator end to end (ClassDiagram, ORMatic, generated file, import, mapper configuration, create_all), comparing the mappers with an independent reading of the dataclasses and the text of two generations. (a) The name-building templates are lifted from the generator's source by AST and evaluated on identifiers made of bounded symbolic characters; the solver decides whether two different (class, field) pairs can get the same association-table name or an association table two equal column names (unsat = none within the bound), candidates are confirmed by the real generator.",
+   note="(b) <= 2 classes quick / 3 thorough, <= 2 fields per class, fixed class names; finite choice space (the solver's role is pruning and exhaustiveness). (a) identifiers of <= 4 (quick) / 6 (thorough) characters over a 9-letter alphabet. Alternative mappings / custom types are exercised by C04/C05. Trusted: z3, the independent dataclass reading, black being deterministic.",
+   technique=SYMX + "; name templates lifted by AST and decided over bounded symbolic character vectors"),
 }
 NA_REASON = "check not built yet (build in progress, see DESIGN.md section 9 for the build order)"
 NA = {}
